@@ -44,14 +44,46 @@ ThoroughChoices(l) == Sigs0(0) \cup Sigs1(0) \cup Sigs2(1) \cup Sigs3(0)
 
 PickAll(S) == S
 
+(* Overload sets (Mode = "ovl"): "it is the overload named in the wrapper's database entry that runs".
+   Universes 1..9: under one name, in one scope, one function per parameter kind (the kind in the last
+   position); every PAIR of kinds is one library, so every kind is overloaded against every other kind,
+   in particular against every kind its wrapper-side representation converts to implicitly (char pointer
+   -> bool / std::string, object pointer -> bool, integer widths, float / double, enum / int).  In the
+   quick tier a pair of kinds is placed in one universe (flavour, class, position) by rotation, in the
+   thorough tier in all nine.  Groups: the conversion-related kinds as complete overload sets of 3 to 5
+   functions, in six flavours each. *)
+UFk  == <<"free", "method", "cmethod", "static", "ctor", "opCall", "opIndex", "free", "method">>
+UCls == <<"-", "K1", "K3", "KB", "Mix", "K2", "K0", "-", "K0">>
+URet == <<"i32", "u64", "string", "f64", "void", "u8", "enum", "i16", "bool">>
+UPre == <<<<>>, <<>>, <<>>, <<>>, <<>>, <<>>, <<>>, <<"u8">>, <<"f64">>>>
+NU == 9
+USig(u, k) == Sig(UFk[u], UCls[u], u, URet[u], UPre[u] \o <<k>>, 0)
+Groups == <<<<"string", "cstr", "bool">>, <<"objPtr", "bool", "u32", "constObjRef">>, <<"i8", "i16", "i32", "i64", "long">>,
+            <<"u8", "u16", "u32", "u64", "ulong">>, <<"f32", "f64", "i32">>, <<"enum", "i32", "u32", "bool">>>>
+GFk  == <<"free", "method", "static", "cmethod", "opCall", "ctor">>
+GCls == <<"-", "K1", "Mix", "K0", "K3", "K2">>
+GRet == <<"u16", "i64", "cstr", "f32", "i32", "void">>
+GSig(g, f, k) == Sig(GFk[f], GCls[f], 100 + 10 * g + f, GRet[f], <<k>>, 0)
+OvlAlpha == WF({USig(u, PK[k]) : u \in 1..NU, k \in 1..20}
+               \cup {GSig(x[1], x[2], Groups[x[1]][x[3]]) : x \in {y \in (1..6) \X (1..6) \X (1..5) : y[3] <= Len(Groups[y[1]])}})
+LastKind(s) == KindIdx(s.ps[Len(s.ps)])
+OvlNext(l, allPairs) ==
+  IF l = {} THEN OvlAlpha
+  ELSE LET a == CHOOSE a \in l : TRUE IN
+       IF a.name >= 100 THEN {s \in OvlAlpha : s.name = a.name}
+       ELSE IF Cardinality(l) >= 2 THEN {}
+       ELSE {s \in OvlAlpha : s.name = a.name /\ (allPairs \/ (LastKind(a) + LastKind(s)) % NU = a.name - 1)}
+QuickOvlChoices(l) == OvlNext(l, FALSE)
+ThoroughOvlChoices(l) == OvlNext(l, TRUE)
+
 DumpFile == IF "VERIF_DUMP" \in DOMAIN IOEnv THEN IOEnv.VERIF_DUMP ELSE ""
 
 (* The dumped record is kept compact (well under 8 KB: concurrent workers append to one file and a larger
    record would be written in several pieces): signatures are referred to by their index in `lib` (0 = the
-   constructor K(int) every class has), object states are <<st, bst>> (<<>> for a destroyed object). *)
+   constructor K(int) every class has), object states are <<st, bst, tg>> (<<>> for a destroyed object). *)
 LibSeq == SetToSeq(lib)
 SigIdx(s) == IF s \in lib THEN CHOOSE i \in 1..Len(LibSeq) : LibSeq[i] = s ELSE 0
-CPost(p) == [o \in 1..Len(p) |-> IF p[o].live THEN <<p[o].st, p[o].bst>> ELSE <<>>]
+CPost(p) == [o \in 1..Len(p) |-> IF p[o].live THEN <<p[o].st, p[o].bst, p[o].tg>> ELSE <<>>]
 CStep(st) ==
   CASE st.op = "new" -> [op |-> "new", obj |-> st.obj, cls |-> st.cls, s |-> SigIdx(st.sig), k |-> st.k, args |-> st.args,
                          post |-> CPost(st.post)]
